@@ -168,6 +168,8 @@ def lines_for(tree, rng):
     for n in tree:
         if n["kind"] in ("disabled", "anon"):
             out.append(([n["name"]], "not-a-name-" + n["kind"]))
+        # an alias list that was replaced while configuring (every fourth command: 'old<name>') names nothing
+        out.append((["old" + n["name"]], "replaced-alias"))
     if any(n["opts"] for _, n in allpaths):
         out.append((["--" + next(n for _, n in allpaths if n["opts"])["opts"][0]["long"]], "option-only"))
     return out
